@@ -251,7 +251,9 @@ fn synth(cmd: &str, args: &[String]) -> i32 {
 		match name {
 			// every prefix of every file is too much for one run
 			"c07" => thin(&mut cases, 1),
-			"c07s" => thin(&mut cases, 1),
+			// ... and three archives per file with thousands of prefixes each even more so: 1/14 of the candidates
+			// (stride 7 is coprime to the group sizes, so the gecko / end / metadata combinations keep rotating)
+			"c07s" => thin(&mut cases, 7),
 			_ => {}
 		}
 		oracles::search(name, &cases, check, hang, t0)
